@@ -89,4 +89,4 @@ require (
 	modernc.org/sqlite v1.54.0 // indirect
 )
 
-replace github.com/openfga/openfga => /tmp/wt_try_9669
+replace github.com/openfga/openfga => /tmp/wt_try_29589
